@@ -209,6 +209,21 @@ def laws():
         res.append(sp.Integer(0 if np_.system is B else 1))
         return Case(res, assume=domain(s[0], co), axioms=axioms.kit(angles(s[0], co), polar(s[0], co)))
 
+    # boundary points: between the two curvilinear systems the z-axis (rho = 0, theta = 0 or pi) is converted by closed formulas that
+    # need no azimuth from Cartesian coordinates, so the position must survive there too (from Cartesian coordinates the azimuth of an
+    # axis point is undefined on the unchanged tree as well: atan2(0, 0); that direction is left to the open domain above)
+    AXIS = {("cyl", "sph"): [(0, sp.pi / 3, 2), (0, 0, -1), (0, -sp.pi / 2, sp.Rational(5, 2))],
+            ("sph", "cyl"): [(2, 0, sp.pi / 4), (3, sp.pi, 1), (sp.Rational(1, 2), 0, 0)]}
+
+    @law("convert_point/keeps-cartesian-position-on-the-axis-between-curvilinear-systems",
+         [(a, b, i) for (a, b), pts in AXIS.items() for i in range(len(pts))], ["coordinate_systems.convert.convert_point"])
+    def _(s, g):
+        A, B = cls[s[0]](), cls[s[1]]()
+        co = [sp.sympify(x) for x in AXIS[(s[0], s[1])][s[2]]]
+        np_ = CSM.convert_point(AppliedPoint(co, A), B)
+        nco = [np_.coordinates[b] for b in B.base_scalars]
+        return Case([sp.simplify(x - y) for x, y in zip(position(s[1], nco), position(s[0], co))])
+
     # third shape element: how the SAME vector is written -- expanded (k0*e0 + k1*e1 + k2*e2) or with a common factor kept outside a
     # bracket (k0*(e0 + e1) + k2*e2, which SymPy keeps as Mul(k0, Add(e0, e1))): the conversion must not depend on the spelling
     @law("convert_vector/keeps-cartesian-components", [p_ + (f,) for p_ in pairs for f in ("expanded", "factored")],
